@@ -41,26 +41,28 @@ def main():
     meta = {"seed": sid, "breaks": props, "needs": needs, "ran": [], "confirmed": {}, "checks": {}}
     wt = "/tmp/seedchk_%s_%d" % (sid, os.getpid())
     demo_name = "demo_seed"
+    flags = os.environ.get("SEED_DEMO_FLAGS", "")   # e.g. --release, --features optim-mip
+    meta["demo_flags"] = flags
     try:
         rc, o = sh("git -C %s worktree add --detach %s HEAD" % (REPO, wt))
         assert rc == 0, o
         os.makedirs(os.path.join(wt, "tests"), exist_ok=True)
         shutil.copy(demo, os.path.join(wt, "tests", demo_name + ".rs"))
-        rc, o = sh("cargo test --offline --test %s 2>&1 | tail -15" % demo_name, cwd=wt)
+        rc, o = sh("cargo test --offline %s --test %s 2>&1 | tail -15" % (flags, demo_name), cwd=wt)
         clean_ok = rc == 0 and "test result: ok" in o and "FAILED" not in o
         meta["confirmed"]["demo_passes_without_change"] = clean_ok
         meta["ran"].append("clean tree: cargo test --offline --test demo -> %s" % ("pass" if clean_ok else "FAIL"))
         rc, o = sh("git apply %s" % patch, cwd=wt)
         meta["confirmed"]["patch_applies"] = rc == 0
         os.remove(os.path.join(wt, "tests", demo_name + ".rs"))
-        rc, o = sh("cargo test --offline --no-fail-fast 2>&1 | grep -E 'test result|FAILED|error' | head", cwd=wt)
+        rc, o = sh("cargo test --offline %s --no-fail-fast 2>&1 | grep -E" % (flags if "features" in flags else "") + "  'test result|FAILED|error' | head", cwd=wt)
         suite_ok = "FAILED" not in o and "error" not in o and "test result: ok" in o
         m = re.search(r"test result: ok\. (\d+) passed", o)
         meta["confirmed"]["existing_suite_passes_with_change"] = suite_ok
         meta["confirmed"]["existing_suite_passed_count"] = int(m.group(1)) if m else None
         meta["ran"].append("with change: cargo test --offline --no-fail-fast -> %s" % o.strip().replace("\n", " | ")[:300])
         shutil.copy(demo, os.path.join(wt, "tests", demo_name + ".rs"))
-        rc, o = sh("cargo test --offline --test %s 2>&1 | tail -15" % demo_name, cwd=wt)
+        rc, o = sh("cargo test --offline %s --test %s 2>&1 | tail -15" % (flags, demo_name), cwd=wt)
         fails = rc != 0 and ("FAILED" in o or "panicked" in o or "error" in o)
         meta["confirmed"]["demo_fails_with_change"] = fails
         meta["ran"].append("with change: cargo test --offline --test demo -> %s" % ("FAIL (as required)" if fails else "pass (NOT a valid seed)"))
